@@ -196,4 +196,14 @@ CLAIMED = {
             "invariance, refusal of private members by the method constructors, and that generated keys/documents are public.",
             "SHA-256 trusted; parameters are syntactic.",
             "DESIGN.md §3 C18"),
+    "C14": ("TLA+ spec StateMetadata (Pack, frame mutation, Unpack over documents of DID tags) model-checked by TLC; every "
+            "behaviour replayed on real IotaDocuments with an independently built expected document",
+            "model_checking",
+            "TLC explores all 49 152 (document shape, unpack target, frame) behaviours and checks the round-trip identity, that "
+            "exactly the self-references are rewritten, that foreign DIDs are untouched and no placeholder survives; the "
+            "harness packs the real document, checks the 7-byte frame and that the own DID does not travel, applies the frame "
+            "mutation, unpacks for the target and compares with the expected document built from the spec's prediction; "
+            "wrong marker/version/encoding/length are rejected, trailing bytes ignored, 65 536-byte bodies fail to pack.",
+            "Placeholder-mentioning documents excluded (as in the property); JSON encoding only (the only one defined).",
+            "DESIGN.md §3 C14"),
 }
